@@ -55,3 +55,17 @@ Definition norm_case (o : @order FN) (scale eps : float) (reg te ee training as_
   | None => Nd [ser_option ser_err None;
                 ser_tensor (call_with_state_hook FN (normalize_fibres FN o scale eps) reg te ee training as_pre data)]
   end.
+
+(* ---------- numeric hooks, one run opportunity on the observed current value ----------
+   result: [error option; dtype; value].  Normalization of a non-floating tensor: vector_norm raises RuntimeError. *)
+Definition clamp_step (lo hi : option (float * bool)) (dt : nat) (fire : bool) (data : list (list float)) : tree :=
+  if fire then
+    Nd [ser_option ser_err None; ser_nat (clamp_dtype dt (option_map snd lo) (option_map snd hi));
+        ser_tensor (clamp_kernel FN (option_map fst lo) (option_map fst hi) data)]
+  else Nd [ser_option ser_err None; ser_nat dt; ser_tensor data].
+Definition norm_step (o : @order FN) (scale eps : float) (dt : nat) (fire : bool) (data : list (list float)) : tree :=
+  if fire then
+    if is_float_dt dt then
+      Nd [ser_option ser_err None; ser_nat dt; ser_tensor (normalize_fibres FN o scale eps data)]
+    else Nd [ser_option ser_err (Some ERuntime); ser_nat dt; ser_tensor data]
+  else Nd [ser_option ser_err None; ser_nat dt; ser_tensor data].
